@@ -132,11 +132,20 @@ Definition rule_rejects (r:rule) (ob:obj) (refl:bool) (cmp:option obj) : bool :=
   end.
 (* fl_attached is environment, not filter: the ATTACHed databases (schemas) the connection reports *)
 Record filt := mkFilt { fl_obj : list (okey*bool); fl_obj_d : bool; fl_name : list (nref*bool); fl_name_d : bool; fl_rules : list rule;
-                        fl_attached : list N }.
+                        fl_attached : list N;
+                        fl_none : bool }.      (* no callable installed at all: nothing is filtered and nothing is called *)
+Definition expected_calls (f:filt) (io:obj -> bool -> option obj -> bool) (iname:nref -> bool) (conn meta:schema) : list tcall :=
+  if fl_none f then [] else calls_f io iname (fl_attached f) conn meta.
 Definition io_of (f:filt) : obj -> bool -> option obj -> bool :=
   fun ob refl cmp => assoc okey_eqb (obj_ref ob, refl, has_cmp cmp) (fl_obj f) (fl_obj_d f)
                      && negb (existsb (fun r => rule_rejects r ob refl cmp) (fl_rules f)).
 Definition iname_of (f:filt) : nref -> bool := fun r => assoc nref_eqb r (fl_name f) (fl_name_d f).
+
+(* EnvironmentContext.configure() may be called several times on one EnvironmentContext (the multi-database env.py): the filters
+   in force for a comparison are exactly those of the LAST call; a call that passes none means no filter *)
+Definition no_filter (attached:list N) : filt := mkFilt [] true [] true [] attached true.
+Definition effective_filt (configure_calls:list (option filt)) (attached:list N) : filt :=
+  match last configure_calls None with Some f => f | None => no_filter attached end.
 
 (* ---------------------------------------------------------------- one case *)
 Definition c20_in : Type := schema * schema * filt.
@@ -146,7 +155,7 @@ Definition g20 : cfg := mkCfg true true.
 Definition model_C20 (i:c20_in) : c20_out :=
   let '(A, B, f) := i in
   mkOut20 (diff_f (io_of f) (iname_of f) g20 (reflect_sqlite A) B) (diff g20 (reflect_sqlite A) B)
-          (calls_f (io_of f) (iname_of f) (fl_attached f) (reflect_sqlite A) B).
+          (expected_calls f (io_of f) (iname_of f) (reflect_sqlite A) B).
 
 (* membership modulo op_eqb (CreateTableOp carries its constraints as a set) *)
 Definition inb (o:op) (l:list op) : bool := existsb (op_eqb o) l.
@@ -171,7 +180,7 @@ Definition C20_holds (i:c20_in) (out:c20_out) : Prop :=
   object_filter_ok (io_of f) (o_filtered out) /\ name_filter_ok (iname_of f) (o_filtered out) /\
   conservativeb (acc (io_of f) (iname_of f) (reflect_sqlite A) B) (o_filtered out) (o_plain out) = true /\
   (* the name filter is consulted for every reflected object ... *)
-  name_calls_okb (calls_f (io_of f) (iname_of f) (fl_attached f) (reflect_sqlite A) B) (o_calls out) = true /\
+  name_calls_okb (expected_calls f (io_of f) (iname_of f) (reflect_sqlite A) B) (o_calls out) = true /\
   (* ... and what it rejects is treated as absent, what include_object rejects is left alone: the operations are those of the
      specification diff_f.  (C20_name_absent: without an object filter diff_f is the plain comparison of the database from which the
      rejected objects have been removed; C20_object_filter / C20_conservative say what include_object does to it.) *)
@@ -198,7 +207,7 @@ Definition check_C20 (i:c20_in) (out:c20_out) : bool :=
   && forallb (fun o => implb (drops_or_alters o)
                          (iname_of f (schema_ref (op_table o)) && iname_of f (NTable (op_table o)) && iname_of f (op_nref o))) (o_filtered out)
   && conservativeb (acc (io_of f) (iname_of f) (reflect_sqlite A) B) (o_filtered out) (o_plain out)
-  && name_calls_okb (calls_f (io_of f) (iname_of f) (fl_attached f) (reflect_sqlite A) B) (o_calls out)
+  && name_calls_okb (expected_calls f (io_of f) (iname_of f) (reflect_sqlite A) B) (o_calls out)
   && ops_equiv (diff_f (io_of f) (iname_of f) g20 (reflect_sqlite A) B) (o_filtered out).
 Definition corr_C20 (i:c20_in) (out:c20_out) : bool :=
   let m := model_C20 i in
